@@ -23,7 +23,7 @@
 mod build;
 mod engine;
 mod model;
-mod spec;
+pub mod spec;
 
 use crate::runner::*;
 use crate::sqlite;
